@@ -7,3 +7,35 @@ Example C15_run : match interfeatures (mkICfg (Some (U "intron"%bs)) true false 
   | Ok [i] => r_start i = Some 11 /\ r_end i = Some 19 /\ dget IDk (r_attrs i) = Some [U "1-2"%bs]
   | _ => False end.
 Proof. vm_compute. repeat split. Qed.
+
+(* create_introns over a database state: gene g with transcripts t1 (exons 1-10, 20-30, 50-60; stored out of start order)
+   and t2 (one exon): two introns for t1, none for t2, and the hypotheses of C15_introns_count hold for t1's exons *)
+From GV Require Import Model.Order Model.Introns.
+Definition frow (id ft : str) (s t : Z) (attrs : list (str * list str)) : row :=
+  set_bin (mkRow id (U "chr1"%bs) (U "s"%bs) ft (Some s) (Some t) [46%N] [43%N] [46%N] attrs [] None).
+Definition PAR : str := U "Parent"%bs.
+Definition st0 : ist :=
+  mkSt [frow (U "g"%bs) (U "gene"%bs) 1 100 [(IDk, [U "g"%bs])];
+        frow (U "t1"%bs) (U "mRNA"%bs) 1 60 [(IDk, [U "t1"%bs]); (PAR, [U "g"%bs])];
+        frow (U "t2"%bs) (U "mRNA"%bs) 70 80 [(IDk, [U "t2"%bs]); (PAR, [U "g"%bs])];
+        frow (U "c"%bs) (U "exon"%bs) 50 60 [(IDk, [U "c"%bs]); (PAR, [U "t1"%bs])];
+        frow (U "a"%bs) (U "exon"%bs) 1 10 [(IDk, [U "a"%bs]); (PAR, [U "t1"%bs])];
+        frow (U "b"%bs) (U "exon"%bs) 20 30 [(IDk, [U "b"%bs]); (PAR, [U "t1"%bs])];
+        frow (U "d"%bs) (U "exon"%bs) 70 80 [(IDk, [U "d"%bs]); (PAR, [U "t2"%bs])]]
+       [mkRel (U "g"%bs) (U "t1"%bs) 1; mkRel (U "g"%bs) (U "t2"%bs) 1; mkRel (U "t1"%bs) (U "c"%bs) 1; mkRel (U "t1"%bs) (U "a"%bs) 1;
+        mkRel (U "t1"%bs) (U "b"%bs) 1; mkRel (U "t2"%bs) (U "d"%bs) 1; mkRel (U "g"%bs) (U "a"%bs) 2; mkRel (U "g"%bs) (U "b"%bs) 2;
+        mkRel (U "g"%bs) (U "c"%bs) 2; mkRel (U "g"%bs) (U "d"%bs) 2] [] [].
+Example C15_create_introns_inhabited :
+  map r_id (transcripts st0 (ViaGrandparent (U "gene"%bs))) = [U "t1"%bs; U "t2"%bs] /\
+  map (fun t => map r_id (exons_of st0 (U "exon"%bs) t)) (transcripts st0 (ViaGrandparent (U "gene"%bs))) = [[U "a"%bs; U "b"%bs; U "c"%bs]; [U "d"%bs]] /\
+  match create_introns st0 (ViaGrandparent (U "gene"%bs)) (U "exon"%bs) (mkICfg (Some (U "intron"%bs)) true false []) with
+  | Ok [i; j] => r_start i = Some 11 /\ r_end i = Some 19 /\ r_start j = Some 31 /\ r_end j = Some 49
+  | _ => False end /\
+  match create_splice_sites st0 (ViaParent (U "mRNA"%bs)) (U "exon"%bs) true false with
+  | Ok l => map (fun r => (r_start r, r_end r)) l = [(Some 11, Some 12); (Some 31, Some 32); (Some 18, Some 19); (Some 48, Some 49)]
+  | _ => False end.
+Proof. vm_compute. repeat split. Qed.
+Example C15_separated_inhabited : forall t, In t (transcripts st0 (ViaParent (U "mRNA"%bs))) -> separated (exons_of st0 (U "exon"%bs) t).
+Proof.
+  intros t [<-|[<-|[]]]; vm_compute; repeat split; eauto 8.
+Qed.
